@@ -743,7 +743,28 @@ func (c *Ctx) typePredicateRule(rule string) {
 				return s.IsCallTo("(*go/types.Named).Obj") && s.Contains(func(q *core.Term) bool { return q.String() == p0 })
 			}):
 				nNamed++
-				okAll = okAll && d.Implies(isA("*types.Named"))
+				// the asserted value is the parameter itself, or the parameter with pointer levels stripped in a loop
+				// (φ of the parameter and Elem() of a *types.Pointer assertion)
+				subj := t.Find(func(s *core.Term) bool { return s.Kind == "typeassert,ok" && s.Name == "*types.Named" })
+				switch {
+				case subj != nil && subj.Args[0].String() == p0:
+					okAll = okAll && d.Implies(isA("*types.Named"))
+				case subj != nil && subj.Args[0].Kind == "phi":
+					stripped := true
+					for _, a := range subj.Args[0].Args {
+						if a.String() == p0 || strings.HasPrefix(a.String(), "opaque:cycle") {
+							continue
+						}
+						if a.IsCallTo("(*go/types.Pointer).Elem") && a.Contains(func(q *core.Term) bool { return q.Kind == "typeassert,ok" && q.Name == "*types.Pointer" }) {
+							nPtr++
+							continue
+						}
+						stripped = false
+					}
+					okAll = okAll && stripped
+				default:
+					okAll = false
+				}
 			case t.IsCallTo(pUtil+"PkgOf") && t.Args[0].IsCallTo("(*go/types.Pointer).Elem") && t.Args[0].Contains(func(q *core.Term) bool { return q.String() == p0 }):
 				nPtr++
 				okAll = okAll && d.Implies(isA("*types.Pointer"))
@@ -772,6 +793,20 @@ func (c *Ctx) typePredicateRule(rule string) {
 			}
 		}
 		r.Check(rule, FnKey(fn)+":lookup", c.Pos(fn.Pos()), okL, "LookupName must answer the table entry of the given path with its presence flag")
+	}
+	if fn := c.MustFunc(rule, "/pkg/util", "StringType"); fn != nil {
+		okS := false
+		for _, ret := range core.Returns(fn) {
+			t := c.O.Of(ret.Results[0])
+			// types.Universe.Lookup("string").Type()  or  types.Typ[types.String]
+			if t.Kind == "invoke" && t.Name == "(types.Object).Type" && t.Args[0].IsCallTo("(*go/types.Scope).Lookup") && t.Args[0].Args[0].Is("global", "types.Universe") && t.Args[0].Args[1].Is("const", `"string"`) {
+				okS = true
+			}
+			if t.Kind == "index" && t.Args[0].Is("global", "types.Typ") && t.Args[1].Is("const", "17") {
+				okS = true
+			}
+		}
+		r.Check(rule, FnKey(fn)+":string", c.Pos(fn.Pos()), okS, "StringType must be the predeclared type string (an untyped string is assignable to every defined string type: the String() rung would then apply where only a conversion does)")
 	}
 	if fn := c.MustFunc(rule, "/pkg/util", "IsErrorType"); fn != nil {
 		p0 := "param:" + fn.Params[0].Name()
@@ -1540,6 +1575,13 @@ func (c *Ctx) overlayRule(rule string) {
 				}
 				n++
 				f := LitFields(a)
+				// build flags: exactly -tags <build tag>; any other flag changes what the go command does (-mod=mod lets it rewrite go.mod)
+				okFlags := false
+				if bf := f["BuildFlags"]; bf != nil {
+					e0, e1, e2 := c.varargAt(bf, 0), c.varargAt(bf, 1), c.varargAt(bf, 2)
+					okFlags = e0 != nil && e0.Is("const", `"-tags"`) && e1 != nil && e1.Is("const", `"convergen"`) && e2 == nil
+				}
+				r.Check(rule, FnKey(fn)+":BuildFlags", c.InstrPos(a), okFlags, "the loader's build flags must be exactly {\"-tags\", \"convergen\"}: any other flag is handed to the go command (e.g. -mod=mod makes `go list` rewrite go.mod)")
 				ov := f["Overlay"]
 				if ov == nil {
 					r.Check(rule, FnKey(fn)+":Overlay", c.InstrPos(a), false, "the loader configuration has no Overlay: whatever is at the output path is read by the go command")
@@ -1592,4 +1634,233 @@ func (c *Ctx) overlayRule(rule string) {
 		}
 	}
 	r.Floor(rule, "packages.Config literals in the parser", n, 1)
+}
+
+// fsReadInventory: module code looks at the file system only at the confirmed sites.
+func (c *Ctx) fsReadInventory(rule string) {
+	r := c.R
+	r.Rule(rule, "file-reading inventory: the calls from module code that read the file system are exactly os.Stat of the two paths and of each file offered to the ParseFile hook, packages.Load, the package-clause parse of the setup file for the loader overlay, and imports.Process; nothing opens, reads or lists anything else (in particular nothing reads the output path: whatever it holds cannot influence the run)")
+	table := map[string]int{
+		"parser.NewParser:os.Stat": 2, "parser.NewParser$1:os.Stat": 1, "parser.NewParser:golang.org/x/tools/go/packages.Load": 1,
+		"parser.outputOverlay:os.Stat": 1, "parser.outputOverlay:go/parser.ParseFile": 1,
+		"(*generator.Generator).Generate:golang.org/x/tools/imports.Process": 1,
+	}
+	seen := map[string]int{}
+	for _, e := range c.ExternalCalls() {
+		isRead := e.Class == effFSRead
+		if e.Callee == "go/parser.ParseFile" {
+			// reads the named file when no source text is given
+			if a := e.Site.Args(); len(a) >= 3 && c.O.Of(a[2]).Is("const", "nil") {
+				isRead = true
+			}
+		}
+		if !isRead {
+			continue
+		}
+		key := FnKey(e.Site.Fn) + ":" + e.Callee
+		seen[key]++
+		r.Check(rule, sprintf("%s#%d", key, seen[key]), c.Pos(e.Site.Pos()), seen[key] <= table[key], "module code reads the file system at a site outside the confirmed table: "+e.Callee+" in "+FnKey(e.Site.Fn))
+	}
+	n := 0
+	for _, v := range seen {
+		n += v
+	}
+	r.Floor(rule, "file-reading call sites", n, 5)
+}
+
+// cutRangeRule: the range between the two markers of an interface is the hull of all field lists below its declaration.
+func (c *Ctx) cutRangeRule(rule string) {
+	r := c.R
+	r.Rule(rule, "cut range of a converter interface: the ast.Inspect callback in GenerateBaseCode never stops the walk (every return is the constant true), writes the captured range variables only with a field list's Pos() / Closing, the lower bound only when it is the first or strictly smaller, the upper bound only when it is the first or strictly larger (the hull of all field lists: type-parameter lists, the method list, nested parameter lists)")
+	fn := c.MustMethod(rule, "/pkg/parser", "Parser", "GenerateBaseCode")
+	if fn == nil {
+		return
+	}
+	n := 0
+	for _, s := range c.CallsIn(fn, "go/ast.Inspect", true) {
+		mc, ok := s.Args()[1].(*ssa.MakeClosure)
+		if !ok {
+			r.Check(rule, FnKey(s.Fn)+":callback", c.Pos(s.Pos()), false, "the Inspect callback is not a literal closure")
+			continue
+		}
+		cb := mc.Fn.(*ssa.Function)
+		n++
+		key := FnKey(cb)
+		okRet := true
+		for _, ret := range core.Returns(cb) {
+			if !c.O.Of(ret.Results[0]).Is("const", "true") {
+				okRet = false
+			}
+		}
+		r.Check(rule, key+":never-stops", c.Pos(cb.Pos()), okRet, "the callback can return false: the walk stops before every field list below the declaration was seen (a type-parameter list comes before the method list)")
+		isFL := func(t *core.Term) bool {
+			return t.Kind == "extract" && t.Name == "0" && t.Args[0].Kind == "typeassert,ok" && t.Args[0].Name == "*ast.FieldList" && t.Args[0].Args[0].Kind == "param"
+		}
+		first := c.M(true, eqConst(func(t *core.Term) bool {
+			return t.Kind == "fv" && t.Type != nil && strings.HasSuffix(t.Type.String(), "token.Pos")
+		}, "0"))
+		ns := 0
+		for _, b := range cb.Blocks {
+			for _, in := range b.Instrs {
+				st, ok := in.(*ssa.Store)
+				if !ok {
+					continue
+				}
+				fv, ok := st.Addr.(*ssa.FreeVar)
+				if !ok {
+					continue
+				}
+				ns++
+				v := c.O.Of(st.Val)
+				cell := "fv:" + fv.Name()
+				d := c.ReachOf(st)
+				var okS bool
+				switch {
+				case v.IsCallTo("(*go/ast.FieldList).Pos") && isFL(v.Args[0]):
+					smaller := c.M(true, func(t *core.Term) bool {
+						return t.Kind == "binop" && ((t.Name == "<" && t.Args[0].String() == v.String() && t.Args[1].String() == cell) || (t.Name == ">" && t.Args[1].String() == v.String() && t.Args[0].String() == cell))
+					})
+					okS = d.Implies(first, smaller)
+				case v.IsField("ast.FieldList.Closing") && isFL(v.Args[0]):
+					larger := c.M(true, func(t *core.Term) bool {
+						return t.Kind == "binop" && ((t.Name == "<" && t.Args[1].String() == v.String() && t.Args[0].String() == cell) || (t.Name == ">" && t.Args[0].String() == v.String() && t.Args[1].String() == cell))
+					})
+					okS = d.Implies(first, larger)
+				}
+				r.Check(rule, sprintf("%s:store%d:%s", key, ns, fv.Name()), c.InstrPos(st), okS, "range variable "+fv.Name()+" is set to "+v.String()+" outside the hull discipline (first field list, or strictly extending the range); reach: "+d.Describe(c.O))
+			}
+		}
+		r.Check(rule, key+":updates", c.Pos(cb.Pos()), ns >= 3, sprintf("expected the callback to maintain both range bounds, found %d stores", ns))
+	}
+	r.Floor(rule, "ast.Inspect callbacks in GenerateBaseCode", n, 1)
+}
+
+// allLoops returns the natural loops of fn keyed by header.
+func allLoops(fn *ssa.Function) map[*ssa.BasicBlock]map[*ssa.BasicBlock]bool {
+	loops := map[*ssa.BasicBlock]map[*ssa.BasicBlock]bool{}
+	for _, tail := range fn.Blocks {
+		for _, head := range tail.Succs {
+			if !head.Dominates(tail) {
+				continue
+			}
+			body := loops[head]
+			if body == nil {
+				body = map[*ssa.BasicBlock]bool{head: true}
+				loops[head] = body
+			}
+			var stack []*ssa.BasicBlock
+			if !body[tail] {
+				body[tail] = true
+				stack = append(stack, tail)
+			}
+			for len(stack) > 0 {
+				x := stack[len(stack)-1]
+				stack = stack[:len(stack)-1]
+				for _, p := range x.Preds {
+					if !body[p] {
+						body[p] = true
+						stack = append(stack, p)
+					}
+				}
+			}
+		}
+	}
+	return loops
+}
+
+// searchFlagRule: the verdict of a per-element search is not carried from one element to the next.
+func (c *Ctx) searchFlagRule(rule string) {
+	r := c.R
+	r.Rule(rule, "per-element search flags: a bool that is set to a constant inside an inner loop (the result of searching another collection for the current element) and tested in the body of the enclosing loop is initialised inside that enclosing loop – it is not a loop-carried value of the enclosing loop (a hit for one element would otherwise decide all later elements)")
+	n := 0
+	for _, fn := range c.P.Funcs() {
+		loops := allLoops(fn)
+		for head, body := range loops {
+			// inner loops of this loop
+			// inner loops of this loop, each represented by the entry blocks of its body: a block dominated by one of them
+			// runs inside an iteration of the inner loop (this includes blocks that leave it by break)
+			var inner []*ssa.BasicBlock
+			for h2, b2 := range loops {
+				if h2 != head && body[h2] && len(b2) < len(body) {
+					for _, s2 := range h2.Succs {
+						if b2[s2] && s2 != h2 {
+							inner = append(inner, s2)
+						}
+					}
+				}
+			}
+			if len(inner) == 0 {
+				continue
+			}
+			n++
+			for _, in := range head.Instrs {
+				phi, ok := in.(*ssa.Phi)
+				if !ok {
+					continue
+				}
+				if bt, isB := phi.Type().Underlying().(*types.Basic); !isB || bt.Kind() != types.Bool {
+					continue
+				}
+				// set to a constant inside an inner loop?
+				setInner := false
+				seen := map[ssa.Value]bool{}
+				var walk func(v ssa.Value, at *ssa.BasicBlock, d int)
+				walk = func(v ssa.Value, at *ssa.BasicBlock, d int) {
+					if d > 6 || seen[v] {
+						return
+					}
+					seen[v] = true
+					if p2, isPhi := v.(*ssa.Phi); isPhi {
+						for i, e := range p2.Edges {
+							from := p2.Block().Preds[i]
+							if _, isK := e.(*ssa.Const); isK {
+								for _, entry := range inner {
+									if entry.Dominates(from) {
+										setInner = true
+									}
+								}
+								continue
+							}
+							walk(e, from, d+1)
+						}
+					}
+				}
+				for i, e := range phi.Edges {
+					if body[head.Preds[i]] {
+						walk(e, head.Preds[i], 0)
+					}
+				}
+				if !setInner {
+					continue
+				}
+				// tested in the body of this loop (the φ itself or a φ fed by it)?
+				tested := false
+				var uses func(v ssa.Value, d int)
+				visited := map[ssa.Value]bool{}
+				uses = func(v ssa.Value, d int) {
+					if d > 4 || visited[v] || v.Referrers() == nil {
+						return
+					}
+					visited[v] = true
+					for _, rf := range *v.Referrers() {
+						switch x := rf.(type) {
+						case *ssa.If:
+							if body[x.Block()] {
+								tested = true
+							}
+						case *ssa.UnOp:
+							uses(x, d+1)
+						case *ssa.Phi:
+							if body[x.Block()] {
+								uses(x, d+1)
+							}
+						}
+					}
+				}
+				uses(phi, 0)
+				r.Check(rule, sprintf("%s:%s", FnKey(fn), phi.Comment), c.InstrPos(phi), !tested, "the search flag "+phi.Comment+" is set inside an inner loop, tested in the enclosing loop and carried from one iteration of the enclosing loop to the next: declare it inside the loop")
+			}
+		}
+	}
+	r.Note(rule+"_nested_loops_examined", n)
 }
